@@ -203,9 +203,12 @@ def run_case(case):
             p.setdefault('layers', {}).setdefault(item[1], {})[item[2]] = \
                 'raise:' + rng.choice(['ValueError', 'KeyError', 'NeedsArgs'])
         else:
-            p.setdefault('modules', {})[item[1]] = {
-                'what': 'raise', 'exc': rng.choice(['ImportError',
-                                                    'ValueError'])}
+            p.setdefault('modules', {})[item[1]] = rng.choice([
+                {'what': 'raise', 'exc': 'ImportError'},
+                {'what': 'raise', 'exc': 'ValueError'},
+                # a module that calls sys.exit() at import time
+                {'what': 'sysexit', 'code': 0},
+                {'what': 'sysexit', 'code': 3}])
         return p
     rng.shuffle(singles)
     for item in singles:
